@@ -81,8 +81,9 @@ def eval_case(case):
     raise ValueError(sub)
 
 
-def model_sampling(answers, default):
-    """exact rejection sampling applied to the answer stream: returns (digits, y, requests consumed)"""
+def model_sampling(answers, default, reverse=False):
+    """exact rejection sampling applied to the answer stream: returns (digits, y, requests consumed).  reverse: the four digits are drawn
+    most significant first (the property does not say in which order the digits of y are drawn)"""
     it = iter(answers)
     used = 0
 
@@ -98,6 +99,8 @@ def model_sampling(answers, default):
                 if d < X:
                     c.append(d)
                     break
+        if reverse:
+            c = c[::-1]
         y = sum(ci * X**i for i, ci in enumerate(c))
         if y < ref.r:
             return c, y, used
@@ -114,6 +117,7 @@ def eval_random(case):
     default = int(case["default"], 16)
     a = int(case["a"], 16)
     cs, y, used = model_sampling(answers, default)
+    y_alt = model_sampling(answers, default, reverse=True)[1]
     msgs = []
     exp = None
     for cfg in case.get("cfgs", ["asm"]):
@@ -160,7 +164,7 @@ def eval_random(case):
             digit_protocol = all(n == 8 for n in reqs)
             if not digit_protocol:
                 OTHER_PROTOCOL.add("%s:%s" % (routine, sorted(set(reqs))))
-            if digit_protocol and gy != y:
+            if digit_protocol and gy not in (y, y_alt):
                 msgs.append("%s:%s returned y = %x, exact rejection sampling of the stream gives %x" % (cfg, routine, gy, y))
             if out is not None:
                 if exp is None or exp[0] != gy:
